@@ -262,4 +262,11 @@ HARNESSES = [
     Harness(name="H13-connection", scenario=h13_connection, bounds={"results broker bucket class": "ArgsBucket / ResultBucket"},
             functions=["connection.py:Connection.__post_init__"], covers=["connection-validated"]),
 ]
+from harness.c16 import h16_eager  # noqa: E402
+
+HARNESSES.append(
+    Harness(name="H13-eager-result", scenario=h16_eager, workers=16, params={"quick": {"pre_len": 3}, "thorough": {"pre_len": 4}},
+            bounds={"actor script": "0..3 (quick) / 0..4 (thorough) calls from {add_callback, set_result, set_exception} then an eager response"},
+            functions=["dependencies/message_dependency.py:MessageDependency.set_result", "dependencies/message_dependency.py:MessageDependency.set_exception"],
+            covers=["result-set"]))
 ASSUMPTIONS = ["in-memory bucket broker; eager set_result/set_exception ordering is checked under C16 (H16-eager-order)"]
